@@ -42,6 +42,7 @@ var checks = map[string]entry{
 	"C20": {"model_checking", props.C20},
 	// development entry: the composition behaviours alone, every clause reported (not registered in MANIFEST.json)
 	"DISK": {"model_checking", props.DiskAll},
+	"EXTPROBE": {"model_checking", props.ExtProbe},
 }
 
 func main() {
